@@ -28,12 +28,15 @@ CONSTANTS Class,      \* "json" | "simple" | "pydantic" (the operations whose me
           NSlots,     \* 1, or 2 when Copy is enabled
           MaxElems,   \* bound on the number of elements of a grammar
           MaxAtoms,   \* bound on the number of atoms of a merged type
-          MaxDepth    \* bound on the length of the histories
+          MaxDepth,   \* bound on the length of the histories
+          ReqOps      \* operations of the live required-names set offered to EditRequired
 
 VARIABLES g,          \* g[s] : the grammar object in slot s
           q,          \* q[s] : which lazily built views of g[s] were requested since its definition was
-                      \*        last edited (val: validated, sch: schema asked).  Path-forming only: it makes
-                      \*        "fill a cache, edit, query again" distinct transitions of the state graph.
+                      \*        last edited (val: validated, sch: schema asked) and whether an update of some
+                      \*        grammar object failed since then (fail).  Path-forming only: it makes "fill a
+                      \*        cache, edit, query again" and "an update fails, the next edit" distinct
+                      \*        transitions of the state graph.  It never enters an expected value.
           h           \* number of edit operations so far (queries are not counted)
 vars == <<g, q, h>>
 
@@ -61,7 +64,8 @@ Kinds == {"int", "float", "bool", "str", "cplx", "farr", "iarr", "ilist", "flist
    \* dict {"k":1} | None      (non-integral floats only: integral floats are draft-dependent)
 ArrayLike == {"farr", "iarr", "ilist", "flist", "slist", "tuple", "arr2d", "empty"}
 NDArrays  == {"farr", "iarr", "arr2d", "empty"}
-Atoms == {"Int", "Num", "Bool", "Str", "Arr", "ArrNum", "ArrInt", "Any"}
+Atoms == {"Int", "Num", "Bool", "Str", "Arr", "ArrNum", "ArrInt", "Any", "Obj"}
+   \* Obj: a nested object {"type": "object", "properties": {"x": {"type": "integer"}}} (JSON schemas only)
 
 JsonAcc(a) ==
   CASE a = "Int"    -> {"int"}
@@ -72,6 +76,7 @@ JsonAcc(a) ==
     [] a = "ArrNum" -> {"farr", "iarr", "ilist", "flist", "tuple", "empty"}  \* items: number
     [] a = "ArrInt" -> {"iarr", "ilist", "tuple", "empty"}                   \* items: integer
     [] a = "Any"    -> Kinds                                                 \* {}
+    [] a = "Obj"    -> {"dict"}                                              \* nested object
 
 SimpleAcc(a) ==
   CASE a = "Int"    -> {"int", "bool"}        \* isinstance(True, int)
@@ -116,13 +121,16 @@ Others == <<
   [elems |-> [b |-> {"Num"}],                req |-> {},         dflt |-> [b |-> 2]],
   [elems |-> [a |-> {"Int"}, b |-> {"Arr"}], req |-> {"a", "b"}, dflt |-> <<>>] >>
 ExclChoices == {{}, {"a"}}
+(* the schemas offered to UpdateFromSchema: the same definitions, and one whose middle property is a    *)
+(* nested object (its siblings come before and after it in the schema)                                  *)
+SchemaOthers == Others \o <<
+  [elems |-> [a |-> {"Str"}, b |-> {"Obj"}, c |-> {"Str"}], req |-> {"c"}, dflt |-> <<>>] >>
 
 --------------------------------------------------------------------------------
 Empty == [live |-> FALSE, elems |-> <<>>, req |-> {}, dflt |-> <<>>, toNs |-> <<>>, fromNs |-> <<>>]
 Fresh == [Empty EXCEPT !.live = TRUE]
 
-Cold == [val |-> FALSE, sch |-> FALSE]
-Cached == Class # "simple"     \* JSON and pydantic grammars build their validator lazily
+Cold == [val |-> FALSE, sch |-> FALSE, fail |-> FALSE]
 IsJson == Class = "json"
 
 Init == /\ g = [s \in Slots |-> IF s = 1 THEN Fresh ELSE Empty]
@@ -135,6 +143,7 @@ Step == h < MaxDepth /\ h' = h + 1
 Set(s, G) == g' = [g EXCEPT ![s] = G] /\ q' = [q EXCEPT ![s] = Cold] /\ Step      \* edit of the definition
 SetKeep(s, G) == g' = [g EXCEPT ![s] = G] /\ UNCHANGED q /\ Step                   \* edit of required/defaults
 Same == UNCHANGED <<g, q>> /\ Step                                                \* rejected operation
+Failed == UNCHANGED g /\ q' = [t \in Slots |-> [q[t] EXCEPT !.fail = TRUE]] /\ Step  \* an update that raised
 On(op, s) == op \in Ops /\ s \in Slots /\ Live(s)
 Put(G, n, T, m) == IF m /\ n \in DOMAIN G.elems THEN G.elems[n] \cup T ELSE T
 Mergeable(G, n, T, m) == (m /\ n \in DOMAIN G.elems) => MergeOK(G.elems[n], T)
@@ -186,10 +195,26 @@ Update(s, o, X, m) ==
 
 (* update_from_schema(schema): properties and required names of the schema (JSON grammars) *)
 UpdateFromSchema(s, o) ==
-  /\ On("UpdateFromSchema", s) /\ Class = "json" /\ o \in 1..Len(Others)
+  /\ On("UpdateFromSchema", s) /\ Class = "json" /\ o \in 1..Len(SchemaOthers)
   /\ LET G == g[s]
-         O == Others[o]
+         O == SchemaOthers[o]
      IN Set(s, [G EXCEPT !.elems = Override(G.elems, O.elems), !.req = G.req \cup O.req])
+
+(* an update that raises leaves the grammar unchanged (DESIGN 2.4), and the next edit of any grammar    *)
+(* object means what it always means:                                                                   *)
+(*   RejectSchema : update_from_schema(SchemaOthers[o] with one more property of an unknown JSON type   *)
+(*                  in the middle)                                                                      *)
+(*   RejectData   : update_from_data({n: value, another name: a value no JSON type describes})          *)
+(*   OtherFails   : such an update fails on another grammar object (none of the modelled ones)          *)
+RejectSchema(s, o) ==
+  /\ On("RejectSchema", s) /\ Class = "json" /\ o \in 1..Len(SchemaOthers)
+  /\ Failed
+RejectData(s, n) ==
+  /\ On("RejectData", s) /\ Class = "json" /\ n \in Names
+  /\ Failed
+OtherFails ==
+  /\ "OtherFails" \in Ops /\ Class = "json"
+  /\ Failed
 
 (* to_file then JSONGrammar(file_path=...): the definition survives, defaults and namespaces do not *)
 Reload(s) ==
@@ -237,8 +262,10 @@ Copy == /\ "Copy" \in Ops /\ NSlots >= 2 /\ Live(1)
         /\ g' = [g EXCEPT ![2] = g[1]] /\ q' = [q EXCEPT ![2] = q[1]] /\ Step
 
 (* pickle round trip: the same grammar *)
+(* (the unpickled JSON grammar has its schema dictionary but no validator; the unpickled pydantic     *)
+(* grammar has its model rebuilt: "validated" as far as path forming goes)                            *)
 Pickle(s) == /\ On("Pickle", s) /\ UNCHANGED g /\ Step
-             /\ q' = [q EXCEPT ![s] = IF IsJson THEN [val |-> FALSE, sch |-> TRUE] ELSE Cold]
+             /\ q' = [q EXCEPT ![s] = [val |-> ~IsJson, sch |-> IsJson, fail |-> FALSE]]
 
 SetDefault(s, n, v) ==
   /\ On("SetDefault", s) /\ n \in Dom(s) /\ v \in DefaultValues
@@ -261,6 +288,26 @@ Require(s, n) ==
   /\ On("Require", s) /\ n \in Dom(s) \ g[s].req
   /\ SetKeep(s, [g[s] EXCEPT !.req = @ \cup {n}])
 
+(* edits through the live required_names object (a MutableSet bound to the grammar):                *)
+(*   add(n) remove(n) discard(n) clear()  rn |= S  rn -= S  rn &= S                                   *)
+(* add / |= of a name that is not an element and remove of a name that is not required raise: not   *)
+(* enabled here (RejectRequire).  None of them touches the elements: q is kept.                      *)
+ReqAfter(R, op, S) ==
+  CASE op \in {"add", "ior"}               -> R \cup S
+    [] op \in {"remove", "discard", "isub"} -> R \ S
+    [] op = "iand"                          -> R \cap S
+    [] op = "clear"                         -> {}
+ReqArgOK(G, op, S) ==
+  CASE op = "add"     -> Cardinality(S) = 1 /\ S \subseteq DOMAIN G.elems
+    [] op = "remove"  -> Cardinality(S) = 1 /\ S \subseteq G.req
+    [] op = "discard" -> Cardinality(S) = 1 /\ S \subseteq DOMAIN G.elems \cup Names
+    [] op = "clear"   -> S = {}
+    [] op = "ior"     -> S # {} /\ S \subseteq DOMAIN G.elems
+    [] op \in {"isub", "iand"} -> S # {} /\ S \subseteq DOMAIN G.elems
+EditRequired(s, op, S) ==
+  /\ On("EditRequired", s) /\ op \in ReqOps /\ ReqArgOK(g[s], op, S)
+  /\ SetKeep(s, [g[s] EXCEPT !.req = ReqAfter(@, op, S)])
+
 (* required_names.add of a name that is not an element raises KeyError *)
 RejectRequire(s, n) ==
   /\ On("RejectRequire", s) /\ n \in Names \ Dom(s)
@@ -268,7 +315,7 @@ RejectRequire(s, n) ==
 
 (* read-only queries: the grammar is unchanged *)
 Query(op, s) == op \in Ops /\ s \in Slots /\ Live(s) /\ UNCHANGED <<g, h>>
-Validate(s) == Query("Validate", s) /\ q' = [q EXCEPT ![s] = IF Cached THEN [val |-> TRUE, sch |-> IsJson] ELSE Cold]
+Validate(s) == Query("Validate", s) /\ q' = [q EXCEPT ![s].val = TRUE, ![s].sch = IsJson]
 Schema(s)    == Query("Schema", s) /\ IsJson /\ q' = [q EXCEPT ![s].sch = TRUE]
 ToJson(s)    == Query("ToJson", s) /\ IsJson /\ UNCHANGED q
 ToSimple(s)  == Query("ToSimple", s) /\ IsJson /\ UNCHANGED q
@@ -282,15 +329,17 @@ Next ==
        \/ \E n \in Names, k \in DKinds : UpdateFromData(s, n, k, m)
        \/ \E o \in 1..Len(Others), X \in ExclChoices : Update(s, o, X, m)
   \/ \E s \in Slots :
-       \/ \E o \in 1..Len(Others) : UpdateFromSchema(s, o)
+       \/ \E o \in 1..Len(SchemaOthers) : UpdateFromSchema(s, o) \/ RejectSchema(s, o)
+       \/ \E op \in ReqOps, S \in SUBSET AllNames : EditRequired(s, op, S)
        \/ Reload(s) \/ Clear(s) \/ Pickle(s)
        \/ \E S \in SUBSET AllNames : RestrictTo(s, S)
        \/ \E n \in AllNames, m \in Names : Rename(s, n, m)
        \/ \E n \in AllNames : Delete(s, n) \/ DelDefault(s, n) \/ Unrequire(s, n) \/ Require(s, n)
        \/ \E n \in Names : AddNamespace(s, n) \/ RejectMerge(s, n) \/ RejectRestrict(s, n)
                             \/ RejectDelete(s, n) \/ RejectDefault(s, n) \/ RejectRequire(s, n)
+                            \/ RejectData(s, n)
        \/ \E n \in AllNames, v \in DefaultValues : SetDefault(s, n, v)
-  \/ Copy
+  \/ Copy \/ OtherFails
 
 Spec == Init /\ [][Next]_vars
 
@@ -306,7 +355,7 @@ TypeOK == \A s \in Slots : LET G == g[s] IN
   /\ \A n \in DOMAIN G.dflt : G.dflt[n] \in DefaultValues
   /\ (~G.live => G = Empty)
   /\ h \in 0..MaxDepth
-  /\ q[s] \in [val : BOOLEAN, sch : BOOLEAN]
+  /\ q[s] \in [val : BOOLEAN, sch : BOOLEAN, fail : BOOLEAN]
 
 (* required names and defaults only refer to existing elements; the namespace maps are mutually       *)
 (* inverse on the existing names                                                                       *)
@@ -326,9 +375,12 @@ Accepts(G, d) ==
   /\ \A n \in DOMAIN d \cap DOMAIN G.elems : HasType(d[n], G.elems[n])
 
 (* read-only queries never change the grammar; rejected operations neither *)
-QueriesPure == [][(\E s \in Slots : Validate(s) \/ Schema(s) \/ ToJson(s) \/ ToSimple(s) \/ Repr(s)
-                                   \/ \E n \in Names : RejectMerge(s, n) \/ RejectRestrict(s, n) \/ RejectDelete(s, n)
-                                                       \/ RejectDefault(s, n) \/ RejectRequire(s, n))
+QueriesPure == [][((\E s \in Slots :
+                       \/ Validate(s) \/ Schema(s) \/ ToJson(s) \/ ToSimple(s) \/ Repr(s)
+                       \/ (\E n \in Names : RejectMerge(s, n) \/ RejectRestrict(s, n) \/ RejectDelete(s, n)
+                                             \/ RejectDefault(s, n) \/ RejectRequire(s, n) \/ RejectData(s, n))
+                       \/ (\E o \in 1..Len(SchemaOthers) : RejectSchema(s, o)))
+                    \/ OtherFails)
                    => UNCHANGED g]_vars
 (* a copy is equal to its original and a pickle round trip is the identity *)
 CopyEqual == [][Copy => g'[2] = g[1] /\ g'[1] = g[1]]_vars
